@@ -388,7 +388,7 @@ func search(c *vk.Ctx, f *treesim.Fixture, cfg config) (sawTwoHeads bool) {
 			expanded++
 		}
 		timeUp := expanded < len(frontier)
-		all, stop, ok := c.Exchange(fmt.Sprintf("%s-L%d", cfg.Name, depth), found, timeUp)
+		all, stop, ok := c.ExchangeOwned(fmt.Sprintf("%s-L%d", cfg.Name, depth), found, timeUp)
 		if !ok {
 			return
 		}
